@@ -361,6 +361,50 @@ func Structured(thorough bool) []Lazy {
 			addLazy("patch", fmt.Sprintf("patch/%d/%d", pi, i), func() []byte { return []byte(text()) })
 		})
 	}
+	// list-valued patch members with entries of other JSON types before, between and behind the well-formed entries (what a later
+	// patch of the same list then finds in the document is the raw list)
+	{
+		k1 := ops.PubKeyJSON("k1", keys.New("P-256", 510), `["authentication"]`)
+		k2 := ops.PubKeyJSON("k2", keys.New("Ed25519", 510), `["assertionMethod"]`)
+		s1, s2 := `{"id":"s1","type":"T","serviceEndpoint":"https://s.example/"}`, `{"id":"s2","type":"U","serviceEndpoint":"https://t.example/"}`
+		ji := 0
+		for _, junk := range []string{`7`, `"x"`, `null`, `[]`, `true`, `{}`, `{"id":7}`} {
+			for _, shape := range []string{"%[1]s,%[2]s,%[3]s", "%[2]s,%[1]s,%[3]s", "%[2]s,%[3]s,%[1]s", "%[1]s,%[1]s,%[2]s"} {
+				ks, ss := fmt.Sprintf(shape, junk, k1, k2), fmt.Sprintf(shape, junk, s1, s2)
+				for _, pt := range []string{
+					`{"action":"replace","document":{"publicKeys":[` + ks + `],"services":[` + ss + `]}}`,
+					`{"action":"add-public-keys","publicKeys":[` + ks + `]}`,
+					`{"action":"add-services","services":[` + ss + `]}`,
+					`{"action":"remove-services","ids":[` + fmt.Sprintf(shape, junk, `"s1"`, `"s2"`) + `]}`,
+					`{"action":"remove-public-keys","ids":[` + fmt.Sprintf(shape, junk, `"k1"`, `"k2"`) + `]}`,
+					`{"action":"add-also-known-as","uris":[` + fmt.Sprintf(shape, junk, `"https://aka.example/"`, `"did:x:y"`) + `]}`,
+				} {
+					add("patch", fmt.Sprintf("patch/junk-entries/%d", ji), []byte(pt))
+					ji++
+				}
+				// ... and inside a fully valid create request (also as a long-form DID), followed by patches that name the same ids again
+				{
+					shapeKs, shapeSs := ks, ss
+					n := ji
+					mk := func() []byte {
+						return ops.Bytes(ops.ValidCreate(keys.New("P-256", 501), keys.New("P-256", 502), []any{
+							ops.ParseJSON(`{"action":"replace","document":{"publicKeys":[` + shapeKs + `],"services":[` + shapeSs + `]}}`),
+							ops.ParseJSON(`{"action":"add-services","services":[` + s1 + `]}`),
+							ops.ParseJSON(`{"action":"add-public-keys","publicKeys":[` + k1 + `]}`),
+							ops.ParseJSON(`{"action":"remove-services","ids":["s2"]}`)}, 18, nil))
+					}
+					addLazy("op", fmt.Sprintf("create-with-junk-entries/%d", n), mk)
+					addLazy("did", fmt.Sprintf("did/create-with-junk-entries/%d", n), func() []byte {
+						b := mk()
+						var m M
+						_ = json.Unmarshal(b, &m)
+						cb, _ := jcs.CanonGo(m["suffixData"])
+						return []byte("did:ion:" + mh.MustHash(18, cb) + ":" + enc.EncodeToString(b))
+					})
+				}
+			}
+		}
+	}
 	docText := `{"publicKey":[` + ops.PubKeyJSON("k1", keys.New("P-256", 511), `["authentication","keyAgreement"]`) + `,{"id":"k2","type":"Ed25519VerificationKey2018","publicKeyJwk":{"kty":"OKP","crv":"Ed25519","x":"` + keys.New("Ed25519", 511).JWK().X + `"},"purposes":["assertionMethod"]}],"service":[{"id":"s1","type":"T","serviceEndpoint":{"uri":"https://x"},"extra":[1]}],"alsoKnownAs":["https://a.example/"],"other":{"n":[1,{"m":null}]}}`
 	add("doc", "doc/valid", []byte(docText))
 	each(ops.ParseJSON(docText), func(i int, text func() string) {
